@@ -354,6 +354,8 @@ def main(argv=None):
             "z3 decides every query; unknown/timeout is reported as inconclusive, never as success",
             "numpy is replaced by the pure-Python stand-in symex/npshim.py inside robotools' module globals (validated by running the repository's 148 tests on it: selftest/shimplug.py)",
             "CPython semantics of the proxy classes (symex/core.py); counterexamples are replayed on the unmodified code with real numpy before being reported",
+            "every explored path, enumerated case and replay starts from the state of a fresh process (symex/hygiene.py clears memoisation caches and restores "
+            "module-/class-level containers of the robotools modules); earlier calls in the same process are exactly those the scenario performs itself",
         ],
         wall_s=round(wall, 2),
         violations=len(reproduced),
